@@ -72,8 +72,9 @@ def plan(tier):
             "iterator_forked_after_j_items", "iterator_consumed_via_count", "iterator_consumed_via_last",
             "iterator_consumed_via_nth", "iterator_consumed_via_skip", "iterator_consumed_via_step_by",
             "iterator_consumed_via_size_hint",
+            "ambiguity_chain_not_transitively_closed", "many_fresh_builders_same_configuration",
             # ukkonen
-            "cost_nonzero_diagonal", "nonunit_cost", "reuse_mixed_lengths", "capacity_below_m",
+            "cost_entries_near_u32_max", "cost_nonzero_diagonal", "nonunit_cost", "reuse_mixed_lengths", "capacity_below_m",
             # dist
             "hamming_unequal_refused", "bound_d_minus_1", "bound_d", "bound_u32_max", "empty_string",
             "simd_lane_lengths", "hamming_long",
@@ -85,10 +86,10 @@ def plan(tier):
                 "with |p| in {63,64,65,128,129,200}; texts empty, shorter than p, p, mutated p, planted approximate and "
                 "partial copies (for the block version also copies whose edits all lie left of a block boundary) up to "
                 "300 symbols; unary runs filling the leading blocks exactly followed by a tail, the text run 1-3 symbols longer (exact hit, k=0) or with one substitution; hits of distance exactly k whose k edits all lie left of a block seam (head v x c^r | B, text v* c^(r+1) B), enumerated over u8/u16 blocks, 2-3 blocks, every seam, k<=3; guided search (texts = truncated occurrence followed by an (in)exact occurrence, every truncation point, k<=2, binary/ternary patterns of 2-3 u8/u16 blocks): inputs on which a transcription of the specification's block machine reaches its rare transitions (block kept at bottom k+w-1, drop while the re-activation condition holds, block appended with carry +1 / directly after a drop) or on which one of 7 perturbed copies of the machine reports other hits; the band profile computed by the transcription is checked by TLC against BlkStep (MODEL-DRIFT if different). ukkonen: one object reused for patterns of different lengths, unit "
-                "cost and cost tables with entries 0..3, required class: non-zero diagonal (a symbol does not match itself)."
+                "cost and cost tables with entries 0..3, required classes: non-zero diagonal (a symbol does not match itself) and entries u32::MAX, u32::MAX-1, 2^31, 2^31-1 (forbidden edges; logged as -1 = infinite cost)."
                 " MyersBuilder: block-based matchers with a text wildcard swept over every position of an occurrence and an ambiguous "
                 "pattern symbol on the first row of every block; ONE builder object re-configured between builds (same ambiguity byte "
-                "widened, narrowed, reset; wildcard added), every matcher judged under the call list at build time (last ambig() per byte counts); the builder cloned and sent through serde_json mid-history, all three continue. Values: every Myers<T> / long::Myers<T> / Ukkonen object is Debug-formatted and clone()d in the middle of its run (Myers also clone_from() into a used object of another pattern kept from an earlier run), the remaining searches are answered in turn by the copies and the original and then repeated in reverse order; long::Myers::default() must refuse or answer like the empty pattern. Iterators: find_all_end results forked by clone() after j items (both tails judged), consumed through count/last/nth/skip/step_by, size_hint checked after n items (Myers and Ukkonen); the text is handed over as slice iterator, filter, flat_map, take_while (inexact size hints) or owned items. dist: all pairs over {a,b} up to "
+                "widened, narrowed, reset; wildcard added), every matcher judged under the call list at build time (last ambig() per byte counts); the builder cloned and sent through serde_json mid-history, all three continue. Chained ambiguity tables that are not transitively closed (X->Y, Y->Z; cycles; longer chains; both declaration orders), each configuration built 33 times from fresh builders (HashMap order differs per builder). Values: every Myers<T> / long::Myers<T> / Ukkonen object is Debug-formatted and clone()d in the middle of its run (Myers also clone_from() into a used object of another pattern kept from an earlier run), the remaining searches are answered in turn by the copies and the original and then repeated in reverse order; long::Myers::default() must refuse or answer like the empty pattern. Iterators: find_all_end results forked by clone() after j items (both tails judged), consumed through count/last/nth/skip/step_by, size_hint checked after n items (Myers and Ukkonen); the text is handed over as slice iterator, filter, flat_map, take_while (inexact size hints) or owned items. dist: all pairs over {a,b} up to "
                 "length 3/4, lengths around the SIMD lanes up to 129 (300 thorough), bounds {0,d-1,d,d+1,max-1,max,"
                 "max+1,u32::MAX}, Hamming up to 3000 symbols. distinct_nontrivial counts runs (distinct by construction: "
                 "own case number and seed stream) in which some threshold selected a non-empty proper subset of the end "
